@@ -65,4 +65,33 @@ PROPS = {
         level_text="Randomised exploration of (log, partition A, partition B) triples; the implementation is compared with itself under a different batching/restart/snapshot schedule and with the model.",
         level_note="Trusted: internal/model; raft is replaced by direct Update calls that follow dragonboat's contract.",
     ),
+    "C12": dict(
+        pkg="c12", level="exploration",
+        tests=[T("TestC12", Q(100000), Q(400000, timeout=900, shards=8)),
+               T("TestC12FSM", Q(3000), Q(15000, timeout=900, shards=8))],
+        fuzz=[dict(target="FuzzC12", seconds=180)],
+        rule="TestC12: 2-3 keys (1..1024 bytes; tiny alphabet with 0x00/0xFF, neighbours k.00/k.FF/prefix/last-byte+-1, lengths 1015-1024, bookkeeping look-alikes) checked for "
+             "decode(encode(k))==k (DecodeBytes and the reader-based Decoder within its limit), order preservation on every pair, and sorting below the encoded bookkeeping keys. "
+             "Non-trivial iff the case holds a strict-prefix pair, a pair differing in exactly one byte, or a key of >=1019 bytes. TestC12FSM: 1-8 such keys stored in a real FSM; wildcard "
+             "read/count/delete and an extreme explicit bound must address exactly the user keys and leave applied/leader index intact (non-trivial iff a key or bound >=1019 bytes). "
+             "Distinct = sha256 of case JSON. Thorough adds a native go fuzz campaign (FuzzC12) over key pairs.",
+        assumptions=["the accepted key length is 1024 bytes as enforced by storage/table/table.go"],
+        technique="property-based testing of algebraic laws (round trip, injectivity, monotonicity) + native coverage-guided fuzzing + cross-check through the real state machine",
+        level_text="Randomised exploration of key pairs/triples against algebraic laws with 10^5 cases per quick run, biased to the boundaries (prefixes, 0x00/0xFF, 1019-1024 bytes).",
+        level_note="Trusted: bytes.Compare as the definition of user-key order.",
+    ),
+    "C09": dict(
+        pkg="c09", level="exploration",
+        tests=[T("TestC09", Q(6000), Q(25000, timeout=900, shards=12, shrinktime="60s")),
+               T("TestC09Large", Q(120), Q(800, timeout=900, shards=4, shrinktime="60s"))],
+        rule="Generated table contents (0-40 pairs, some deleted again, flushed or not; TestC09Large: 2-6 pairs with values of 0.5-2 MiB incl. exactly 2 MiB so the ~4 MiB size cut "
+             "triggers) and 1-8 reads each: bounds from the key mixture incl. wildcard on either side / inverted / empty-present end / single key, limit in {0, matches-2..matches+2, random}, "
+             "keys_only / count_only. Every read runs through Lookup(Range) and Lookup(IteratorRequest); oracle: pairs == model range cut at limit, strictly ascending, count, 'more' iff pairs remain, "
+             "stream concatenation == unbounded read with all-but-last chunk flagged more and every message below 4 MiB, first chunk == unary answer, keys-only/count-only agree. "
+             "Non-trivial iff a read has limit within +-1 of the number of matches (matches>=2) or a size cut occurred. Distinct = sha256 of case JSON.",
+        assumptions=FSM_ASSUME + ["transport limit taken as gRPC's default 4 MiB maximum message size"],
+        technique="property-based testing against a reference model + differential between unary and streamed read paths",
+        level_text="Randomised exploration with limits aimed at the boundary (matches-1, matches, matches+1) and values sized to trigger size-based cuts; read paths cross-checked.",
+        level_note="Trusted: internal/model.Read; gRPC KV paths are exercised in C16/C10 fixtures.",
+    ),
 }
